@@ -478,6 +478,7 @@ class SymExec:
         cfg = self.cfg
         out = []
         self.pre_envs = []
+        in_body = {id(x) for st in head.ast.body for x in ast.walk(st)}
         stack = [(cfg.entry, {}, (), (), False, frozenset(), (), ())]
         n_steps = 0
         while stack:
@@ -492,6 +493,9 @@ class SymExec:
                 continue
             if node is head and seen:
                 out.append((pc, events, env, trail, "next-lease", tests))
+                continue
+            if seen and id(node.ast) not in in_body:
+                out.append((pc, events, env, trail, "exit", tests))      # the loop was left (break): stop here
                 continue
             if node.id in visited:
                 raise AnalysisError("%s: a cycle that does not pass the lease loop head (L%d); the decision "
@@ -616,9 +620,13 @@ def _cancel_site(fn):
 def _consistent_avoiding(cfg, fnorm, targets, gate_node):
     """find_path_avoiding(gate_node=..) restricted to paths that do not take
     both outcomes of the same truth test on a local that is not re-bound in
-    between (`if not n: raise` followed by `if n:`)."""
+    between (`if not n: raise` followed by `if n:`), and that do not contradict
+    the exact value of a constant-stepped counter / flag (`found = False ..
+    found = True`, `n = 0 .. n += 1`)."""
+    tracked = _const_counters(cfg.fn, cfg) if cfg.fn is not None else set()
+
     def transfer(n, lab, nxt, st):
-        held, facts = st
+        held, facts, envt = st
         if n.kind in ("entry", "exit", "raise"):
             return st
         stored = node_stores(n)
@@ -629,20 +637,154 @@ def _consistent_avoiding(cfg, fnorm, targets, gate_node):
             if (e, not v) in facts:
                 return None
             facts = facts | {(e, v)}
+        env, _v = _exact_step(n, lab, dict(envt), tracked)
+        if env is None:
+            return None
         if lab != "exc" and gate_node(n):
             held = True
-        return (held, facts)
+        return (held, facts, frozenset(env.items()))
 
     def leaves_of(e):
         return {e}
-    visited, parent = explore(cfg, (False, frozenset()), transfer)
+    visited, parent = explore(cfg, (False, frozenset(), frozenset()), transfer)
     out, seen = [], set()
-    for (nid, st) in sorted(visited, key=lambda x: (x[0], x[1][0], sorted(x[1][1]))):
+    for (nid, st) in sorted(visited, key=lambda x: (x[0], x[1][0], sorted(x[1][1]), repr(sorted(x[1][2], key=repr)))):
         n = cfg.nodes[nid]
         if not st[0] and targets(n) and nid not in seen:
             seen.add(nid)
             out.append((n, witness(cfg, parent, (nid, st))))
     return out
+
+
+_COUNTER_CAP = 6
+
+
+def _const_counters(f, cfg):
+    """Locals of f that are only ever bound to int/bool constants or stepped by
+    `+= k` / `-= k`: their value is known exactly along a path."""
+    shared = {nm for x in ast.walk(f.node) if isinstance(x, (ast.Nonlocal, ast.Global)) for nm in x.names}
+    shared |= {x.target.id for x in ast.walk(f.node) if isinstance(x, ast.NamedExpr) and isinstance(x.target, ast.Name)}
+    ok, bad = set(), set(shared)
+    for n in cfg.nodes:
+        st = {s for s in node_stores(n) if "." not in s and not s.endswith("[]")}
+        if not st:
+            continue
+        a = n.ast
+        simple = None
+        if n.kind == "stmt" and isinstance(a, ast.Assign) and len(a.targets) == 1 and isinstance(a.targets[0], ast.Name) \
+                and isinstance(a.value, ast.Constant) and isinstance(a.value.value, (int, bool)):
+            simple = a.targets[0].id
+        elif n.kind == "stmt" and isinstance(a, ast.AugAssign) and isinstance(a.target, ast.Name) \
+                and isinstance(a.op, (ast.Add, ast.Sub)) and isinstance(a.value, ast.Constant) \
+                and isinstance(a.value.value, int) and not isinstance(a.value.value, bool):
+            simple = a.target.id
+        for s in st:
+            (ok if s == simple else bad).add(s)
+    return ok - bad
+
+
+_BIG, _SMALL = float("inf"), float("-inf")
+
+
+def _known_int(e, env):
+    if isinstance(e, ast.Constant) and isinstance(e.value, (int, bool)):
+        return e.value
+    if isinstance(e, ast.Name):
+        return env.get(e.id)
+    return None
+
+
+def _known_truth(e, env):
+    """Truth value of an atomic condition when it only involves counters whose
+    value is known on this path; None otherwise.  A saturated counter (beyond
+    +-_COUNTER_CAP) is only compared with constants inside the cap."""
+    if isinstance(e, ast.UnaryOp) and isinstance(e.op, ast.Not):
+        v = _known_truth(e.operand, env)
+        return None if v is None else not v
+    if isinstance(e, (ast.Name, ast.Constant)):
+        v = _known_int(e, env)
+        return None if v is None else bool(v)
+    if isinstance(e, ast.Compare) and len(e.ops) == 1:
+        l, r = _known_int(e.left, env), _known_int(e.comparators[0], env)
+        if l is None or r is None:
+            return None
+        sat = [x in (_BIG, _SMALL) for x in (l, r)]
+        if all(sat) or (sat[0] and abs(r) > _COUNTER_CAP) or (sat[1] and abs(l) > _COUNTER_CAP):
+            return None
+        op = type(e.ops[0])
+        table = {ast.Eq: l == r, ast.NotEq: l != r, ast.Lt: l < r, ast.LtE: l <= r, ast.Gt: l > r, ast.GtE: l >= r}
+        return table.get(op)
+    return None
+
+
+def _exact_step(n, lab, env, tracked):
+    """One CFG edge over the exact values of the constant-stepped counters /
+    flags `tracked`: (new env, None) or (None, decided truth value) when the edge
+    contradicts a value known on the path."""
+    a = n.ast
+    if n.kind == "stmt" and isinstance(a, ast.Assign) and len(a.targets) == 1 \
+            and isinstance(a.targets[0], ast.Name) and a.targets[0].id in tracked:
+        env = dict(env)
+        env[a.targets[0].id] = a.value.value
+    elif n.kind == "stmt" and isinstance(a, ast.AugAssign) and isinstance(a.target, ast.Name) and a.target.id in tracked:
+        env = dict(env)
+        v = env.get(a.target.id)
+        if v is not None:
+            k = a.value.value if isinstance(a.op, ast.Add) else -a.value.value
+            if v in (_BIG, _SMALL):
+                v = v if (k >= 0) == (v == _BIG) else None      # stepping back from saturation: unknown
+            else:
+                v = v + k
+                if abs(v) > _COUNTER_CAP:
+                    v = _BIG if v > 0 else _SMALL
+        env[a.target.id] = v
+    if n.kind == "test" and isinstance(lab, tuple):
+        v = _known_truth(a, env)
+        if v is not None and v != (lab[0] == "T"):
+            return None, v
+    return env, None
+
+
+def _all_match_scenario(f):
+    """Explore f under the scenario 'every lease enumerated carries the cancel
+    secret, and there is at least one' (what the crawler's last cancel_lease call
+    on a fully expired share sees): the F edge of the is_cancel_secret test is
+    never taken, tests on constant-stepped counters are decided from their exact
+    value on the path, every other test may go either way.
+    Returns (match test, unlink nodes, unlink nodes reached after a match with a
+    witness, tests that closed the way, number of product states)."""
+    cfg = f.cfg()
+    mt = [n for n in cfg.nodes if n.kind == "test" and any(call_tail(c) == "is_cancel_secret" for c in node_calls(n))]
+    if len(mt) != 1:
+        raise AnchorVanished("%s: expected one is_cancel_secret test, found %d" % (f.qual, len(mt)))
+    un = cfg.find(has_call("unlink"))
+    if not un:
+        raise AnchorVanished("%s no longer unlinks" % f.qual)
+    tracked = _const_counters(f, cfg)
+    closed = {}
+
+    def transfer(n, lab, nxt, st):
+        if lab == "exc":
+            return None
+        matched, envt = st
+        if n is mt[0] and isinstance(lab, tuple):
+            if lab[0] != "T":
+                return None
+            return (True, envt)
+        env, _v = _exact_step(n, lab, dict(envt), tracked)
+        if env is None:
+            if matched:
+                closed.setdefault((n.id, lab[0]), (n, lab[0] == "T", {k: x for k, x in envt if any(
+                    isinstance(y, ast.Name) and y.id == k for y in own_nodes(n.ast))}))
+            return None
+        return (matched, frozenset(env.items()))
+
+    visited, parent = explore(cfg, (False, frozenset()), transfer)
+    reached = []
+    for (nid, st) in sorted(visited, key=lambda x: (x[0], x[1][0], repr(sorted(x[1][1], key=repr)))):
+        if st[0] and any(cfg.nodes[nid] is u for u in un):
+            reached.append((cfg.nodes[nid], witness(cfg, parent, (nid, st))))
+    return mt[0], un, reached, list(closed.values()), len(visited)
 
 
 def _get_config_key(e):
@@ -777,14 +919,20 @@ def _decision_table(ps, paths, head, L, lease, want, report, select=None, list_e
                 trail, tests)
             continue
         P, text = want[case]
-        pos = ("<", P) in facts or ("<=", P) in facts
+        # the documented predicates are strict ("older than", "< now", "greater than its duration"): a lease
+        # whose renewal time equals the cutoff (both are whole seconds) is not expired
+        pos = ("<", P) in facts
         negd = ("<", -P) in facts or ("<=", -P) in facts
         if cancel:
             cases.add((case, "cancel"))
             if not type_in:
                 rep("sharetype", anchor, "a lease is queued for cancellation on a path that never established "
                        "sharetype in self.sharetypes_to_expire", trail, tests)
-            if not pos:
+            if not pos and ("<=", P) in facts:
+                rep(case, anchor, "mode %s: a lease exactly on the boundary (0 == %s) is queued for cancellation; the "
+                       "documented predicate '%s' is strict, the path only establishes 0 <= %s" % (case, P, text, P),
+                    trail, tests)
+            elif not pos:
                 cmpf = sorted(_fact_str(f) for f in facts if f[0] in ("<", "<="))
                 rep(case, anchor, "mode %s: a lease is queued for cancellation without the documented predicate "
                        "'%s' (0 < %s); the path only establishes: %s" % (case, text, P, "; ".join(cmpf) or "nothing"), trail, tests)
@@ -895,7 +1043,12 @@ def run(ctx: Context):
                   "iteration): the lease is queued for cancellation iff its share type is enabled and the predicate "
                   "of the configured mode holds", expected=7) as r:
         sx = SymExec(idx, ps)
-        paths = [p for p in sx.paths(head, L) if p[4] == "next-lease"]
+        all_paths = sx.paths(head, L)
+        # a pass through the loop body that leaves the loop (break / return) is judged like a pass that keeps
+        # the lease: admissible only when the lease is established as not expired (the share stays anyway);
+        # after an expired lease the remaining leases of the share must still be examined in this cycle
+        early = [p for p in all_paths if p[4] == "exit" and any(x is head for x in p[3])]
+        paths = [p for p in all_paths if p[4] == "next-lease"]
         r.count(sx.steps)
         if not paths:
             raise AnchorVanished("no path through the lease loop of process_share")
@@ -923,6 +1076,19 @@ def run(ctx: Context):
         cases = _decision_table(ps, paths, head, L, lease, want, report)
         for c in sorted(cases):
             r.site(ps, head.ast, "case %s/%s" % c)
+        for p in early:
+            if any(e[0] == "append" for e in p[1]):
+                last = p[3][-1]
+                r.violation("%s[early-exit]" % ps.qual, ps.loc(last.ast), "the lease loop is left (L%d) after a lease was "
+                            "queued for cancellation: the remaining leases of the share are not examined, so a share whose "
+                            "leases have all expired is not deleted within the cycle" % last.lineno,
+                            ["L%d %r" % (x.lineno, x) for x in p[3] if x.kind == "test"])
+
+        def report_early(case, node, msg, trail, tests):
+            report("early-exit", trail[-1] if trail else node, "the lease loop is left early (L%d) on a path that does not "
+                   "establish the lease as unexpired: %s" % (trail[-1].lineno if trail else 0, msg), trail, tests)
+        _decision_table(ps, [p for p in early if not any(e[0] == "append" for e in p[1])], head, L, lease, want,
+                        report_early, list_events=False)
 
     # -- 6. the same table in every iteration (nothing carried over from the previous lease) ----
     with ctx.rule("C26.6", "R3/E2", "the per-lease decision table holds in every iteration of the lease loop, not "
@@ -980,6 +1146,15 @@ def run(ctx: Context):
             r.violation(ps, ps.loc(n.ast), "cancel_lease is reachable without self.expiration_enabled being true "
                         "(path: %s)" % w.brief(), w)
             r.count(len(cfg.nodes))
+        # every queued lease is cancelled: after one cancel_lease the only way on is back to the head of the loop
+        # over the expired list (no break / return), otherwise a fully expired share keeps a lease for another cycle
+        chead = [n for n in cfg.nodes if n.kind == "iter" and n.ast is cancel_loop]
+        if len(chead) != 1:
+            raise AnchorVanished("%s: the loop over %s" % (ps.qual, L))
+        for (s0, w) in find_path_from_to_avoiding(cfg, lambda x: any(c is call for c in node_calls(x)),
+                                                  gate_node=lambda x: x is chead[0]):
+            r.violation(ps, ps.loc(s0.ast), "after cancelling one expired lease the loop over %s can be left without "
+                        "cancelling the others (path: %s)" % (L, w.brief()), w)
         for c in calls_in_func(ps, "cancel_lease"):
             if c is not call:
                 r.violation(ps, ps.loc(c), "cancel_lease is also called outside the loop over %s: %s" % (L, src(ps, c)))
@@ -1180,10 +1355,29 @@ def run(ctx: Context):
                     r.require(isinstance(n.ast.op, ast.Add) and isinstance(n.ast.value, ast.Constant)
                               and n.ast.value.value == 1, g, g.loc(n.ast), "%s is updated by %s" % (rem, src(g, n.ast)))
 
+    # -- 7. cancelling the last lease does reach the unlink ------------------------
+    with ctx.rule("C26.7", "R3/E3", "ShareFile.cancel_lease / MutableShareFile.cancel_lease: when every lease found "
+                  "carries the cancelled secret (the crawler's cancel of the last expired lease) the unlink is reachable - "
+                  "no test on a match / remaining counter, decided from the counter's exact value on the path, closes "
+                  "the way (a fully expired share is deleted within the cycle)", expected=2) as r:
+        for q in ("storage.immutable:ShareFile.cancel_lease", "storage.mutable:MutableShareFile.cancel_lease"):
+            f = idx.func(q)
+            mt, un, reached, closed, nstates = _all_match_scenario(f)
+            r.site(f, mt.ast, "all leases match -> unlink")
+            r.count(nstates)
+            if not reached:
+                why = "; ".join("L%d '%s' cannot be %s with %s" % (
+                    n.lineno, src(f, n.ast), "true" if pol else "false",
+                    ", ".join("%s == %r" % kv for kv in sorted(env.items())) or "these values")
+                    for (n, pol, env) in sorted(closed, key=lambda c: c[0].lineno))
+                r.violation(f, f.loc(un[0].ast), "after a cancellation that matched every lease of the share the unlink "
+                            "cannot be reached: a share whose leases have all expired is never deleted (%s)" % (
+                                why or "no path from the matching branch"))
+
     # -- 5. configuration plumbing -----------------------------------------------
     with ctx.rule("C26.5", "R5", "tahoe.cfg [storage]expire.* -> StorageServer(expiration_*) -> "
                   "LeaseCheckingCrawler.__init__ -> self.{expiration_enabled, mode, override_lease_duration, "
-                  "cutoff_date, sharetypes_to_expire}", expected=18) as r:
+                  "cutoff_date, sharetypes_to_expire}", expected=19) as r:
         cl = idx.func("client:_Client.get_anonymous_storage_server")
         cs = [c for c in calls_in_func(cl, "StorageServer")]
         if len(cs) != 1:
@@ -1243,6 +1437,37 @@ def run(ctx: Context):
                 r.require(isinstance(d, ast.Constant) and d.value is False and
                           isinstance(kwarg(c, "boolean"), ast.Constant) and kwarg(c, "boolean").value is True,
                           cl, cl.loc(c), "expire.enabled does not default to boolean False: %s" % src(cl, c))
+        # "expire.mode ... required if expiration enabled" (docs/garbage-collection.rst: deemed safer): a read of
+        # expire.mode that falls back to a valid mode is only reachable with expire.enabled false - otherwise
+        # enabling expiry without choosing a policy silently deletes by age
+        mv = kwarg(sc, "expiration_mode")
+        if isinstance(mv, ast.Name):
+            def disabled(x, lab):
+                if x.kind != "test" or not (isinstance(lab, tuple) and lab[0] == "F"):
+                    return False
+                e = cnorm.resolve(x, x.ast)
+                return _get_config_key(e) == "storage.expire.enabled"
+            n_mode = 0
+            for n in cfg.nodes:
+                v = assign_value(n, mv.id) if n.kind == "stmt" else None
+                if v is None or _get_config_key(v) != "storage.expire.mode":
+                    continue
+                n_mode += 1
+                d = arg(v, 2, "default")
+                if d is None:
+                    continue
+                r.site(cl, v, "expire.mode default")
+                try:
+                    dv = get_folder(idx).fold(d, cl.module, cl.cls)
+                except NotConstant:
+                    dv = "age"      # not a constant: judged like a valid mode
+                if dv not in ("age", "cutoff-date"):
+                    continue        # an invalid mode is rejected by LeaseCheckingCrawler.__init__
+                for (t, w) in find_path_avoiding(cfg, lambda x, _n=n: x is _n, gate_edge=disabled):
+                    r.violation(cl, cl.loc(v), "with [storage]expire.enabled true and no expire.mode the node starts "
+                                "expiring by %r instead of refusing to start (path: %s)" % (dv, w.brief()), w)
+            if not n_mode:
+                raise AnchorVanished("get_anonymous_storage_server: no read of [storage]expire.mode")
         # share types: "immutable"/"mutable" appended under their own flag
         st = kwarg(sc, "expiration_sharetypes")
         if st is None:
